@@ -333,6 +333,29 @@ Example C01_keys_nonvacuous :
 Proof. vm_compute. repeat split; discriminate. Qed.
 Print Assumptions C01_keys_nonvacuous.
 
+(* position i means key i on both sides: the dispatch arguments of the main impl's helper bound
+   are the projections of the family's keys in key order (after the hoisted lifetimes, before
+   the trait's other arguments), and the i-th dispatch argument of a member's helper impl is
+   its row's i-th cell: the payload, or the projection of key i over the member's own header *)
+Theorem C01_main_helper_arguments_in_key_order : forall idx first_blk ids p,
+  helper_bound idx first_blk ids = Some p ->
+  exists name lts others,
+    p = Node (K "Path" "") [Node (K "Seg" name) [Node (K "AAngle" "") (lts ++ map key_projection ids ++ others)]] /\
+    forallb (fun x => is_kind "Lifetime" (tlabel x)) lts = true /\
+    forallb (fun x => negb (is_kind "Lifetime" (tlabel x))) others = true.
+Proof. exact helper_bound_positions. Qed.
+Print Assumptions C01_main_helper_arguments_in_key_order.
+
+Theorem C01_member_helper_arguments_in_key_order : forall s keys row i k c,
+  nth_error keys i = Some k -> nth_error row i = Some c ->
+  nth_error (row_args s keys row) i =
+  Some (match c with
+        | Some payload => Node (K "GType" "") [payload]
+        | None => let '((bounded, tr), a) := k in projection_arg (fwd s bounded) (fwd s (strip_bindings tr)) a
+        end).
+Proof. exact row_args_positions. Qed.
+Print Assumptions C01_member_helper_arguments_in_key_order.
+
 (* ===================================================================================== *)
 (* C11 -- family formation.  The search is validated per grouping by the checker gi_check   *)
 (* (run by the check on every grouping the macro reports); the checker is sound:           *)
